@@ -224,6 +224,19 @@ class Bounds:
         if key in self.stack:
             return TOP  # optimistic for the fixpoint: `L = L - x` preserves whatever L had
         self.stack.add(key)
+        # `if a <= b { a } else { b }` is min(a, b) (and the mirror image max): same tags as the method form
+        sel = _select_minmax(body, t)
+        if sel is not None:
+            kind, a, b = sel
+            from .facts import Term as _Term
+            ra = self._call(body, a, depth + 1) if isinstance(a, _Term) else self.ub(body, a, depth + 1)
+            rb = self._call(body, b, depth + 1) if isinstance(b, _Term) else self.ub(body, b, depth + 1)
+            acc = _union(ra, rb) if kind == "min" else _inter(ra, rb)
+            self.stack.discard(key)
+            if acc is TOP:
+                acc = frozenset()
+            self.memo[key] = acc
+            return acc
         acc = TOP
         for d in t.root[3]:
             if isinstance(d, Stmt):
@@ -278,6 +291,69 @@ class Bounds:
             acc = frozenset() if n == 0 else TOP
         self.summ[fname] = acc
         return acc
+
+
+PURE_SUFFIXES = ("::len", "NonZero::get", "::capacity", "::is_empty", "::as_ref", "Deref::deref", "::as_slices", "::occupied_len", "::vacant_len")
+
+
+def vkey(body, x, depth=0):
+    """structural identity of a value: like Trace.key(), but two evaluations of the same pure call on the same arguments
+    (`payload.len()` written twice, `max_size.get()` in the test and in the branch) are the same value"""
+    from .facts import Term as _Term
+    from .prov import TRANSPARENT
+    if isinstance(x, _Term):
+        c = x
+        if (c.callee in TRANSPARENT or c.resolved in TRANSPARENT) and c.args:
+            return vkey(body, c.args[0], depth + 1)  # the provenance trace looks through these: so must the key
+    else:
+        t = trace(body, x)
+        if t.kind != "call" or t.fields or depth > 4:
+            return t.key()
+        c = t.root[1]
+    r = c.resolved or c.callee or ""
+    if any(r.endswith(sfx) for sfx in PURE_SUFFIXES) and c.args:
+        return ("pure", r, tuple(vkey(body, a, depth + 1) for a in c.args))
+    return ("call", (c.bb, c.idx), ())
+
+
+def _select_minmax(body, t):
+    """`if a <= b { a } else { b }` (any spelling of the comparison, either branch order, operands re-evaluated if pure) as
+    ("min"|"max", value a, value b); a value is an Operand, or the defining call Term"""
+    from .flow import controlling_edges, switch_cond, ordering
+    from .facts import Term as _Term
+    defs = list(t.root[3])
+    if len(defs) != 2:
+        return None
+    vals = []
+    for d in defs:
+        if isinstance(d, Stmt) and d.rv.kind in ("use", "cast"):
+            vals.append(d.rv.ops[0])
+        elif isinstance(d, _Term) and d.kind == "call" and any((d.resolved or "").endswith(sfx) for sfx in PURE_SUFFIXES):
+            vals.append(d)
+        else:
+            return None
+    d1, d2 = defs
+    v1, v2 = vals
+    k1, k2 = vkey(body, v1), vkey(body, v2)
+
+    def conds(bb):
+        out = {}
+        for term, tgt, lab in controlling_edges(body, bb):
+            c, neg = switch_cond(body, term)
+            truth = (lab[1] != 0) if lab[0] == "val" else (0 in lab[1])
+            out[(term.bb, term.idx)] = (c, (not truth) if neg else truth)
+        return out
+    c1, c2 = conds(d1.bb), conds(d2.bb)
+    for k in c1:
+        if k in c2 and c1[k][1] != c2[k][1]:
+            o = ordering(c1[k][0], c1[k][1])
+            if o is None:
+                continue
+            lo, hi = vkey(body, o[0]), vkey(body, o[1])
+            if {lo, hi} != {k1, k2}:
+                continue
+            return ("min" if k1 == lo else "max", v1, v2)
+    return None
 
 
 class _T:
